@@ -2,6 +2,7 @@
 //! The oracle is in the target (not crash-only): a load that returns Ok must give a value that
 //! can be saved again, and saving/loading that value once more must be stable.
 #![allow(clippy::type_complexity)]
+#![feature(alloc_error_hook)]
 
 use savefile::prelude::*;
 use savefile_derive::Savefile;
@@ -56,6 +57,76 @@ pub struct Nested {
     pub t: (bool, char, f32),
 }
 
+// ---- allocation failure on absurd declared lengths is excepted by the property: turn it into an
+// unwinding panic that the target recognises, instead of an abort that ends the fuzzing process
+struct Cap;
+const CAP: usize = 1 << 26; // 64 MiB: inputs are at most 4 kB
+unsafe impl std::alloc::GlobalAlloc for Cap {
+    unsafe fn alloc(&self, l: std::alloc::Layout) -> *mut u8 {
+        if l.size() > CAP { std::ptr::null_mut() } else { std::alloc::System.alloc(l) }
+    }
+    unsafe fn dealloc(&self, p: *mut u8, l: std::alloc::Layout) {
+        std::alloc::System.dealloc(p, l)
+    }
+    unsafe fn realloc(&self, p: *mut u8, l: std::alloc::Layout, n: usize) -> *mut u8 {
+        if n > CAP { std::ptr::null_mut() } else { std::alloc::System.realloc(p, l, n) }
+    }
+    unsafe fn alloc_zeroed(&self, l: std::alloc::Layout) -> *mut u8 {
+        if l.size() > CAP { std::ptr::null_mut() } else { std::alloc::System.alloc_zeroed(l) }
+    }
+}
+#[global_allocator]
+static ALLOC: Cap = Cap;
+
+thread_local! {
+    static IN_GUARD: std::cell::Cell<bool> = std::cell::Cell::new(false);
+    static LAST_PANIC: std::cell::RefCell<String> = std::cell::RefCell::new(String::new());
+}
+
+/// Install the hooks (idempotent). Outside `guarded` a panic prints and aborts (what libfuzzer-sys
+/// does); inside, it is recorded and unwinds to `guarded`.
+pub fn init() {
+    static ONCE: std::sync::Once = std::sync::Once::new();
+    ONCE.call_once(|| {
+        std::alloc::set_alloc_error_hook(|l| panic!("memory allocation of {} bytes failed", l.size()));
+        let default_hook = std::panic::take_hook();
+        std::panic::set_hook(Box::new(move |info| {
+            if IN_GUARD.with(|g| g.get()) {
+                let msg = info.payload().downcast_ref::<&str>().map(|s| s.to_string()).or_else(|| info.payload().downcast_ref::<String>().cloned()).unwrap_or_default();
+                let loc = info.location().map(|l| format!("{}:{}:{}", l.file(), l.line(), l.column())).unwrap_or_default();
+                LAST_PANIC.with(|p| *p.borrow_mut() = format!("{}:\n{}", loc, msg));
+            } else {
+                default_hook(info);
+                std::process::abort();
+            }
+        }));
+    });
+}
+
+/// Run the library on untrusted input: Ok(result), or Err(()) for an allocation failure on an
+/// absurd declared length; any other panic is reported and aborts (a finding).
+pub fn guarded<R>(f: impl FnOnce() -> R) -> Result<R, ()> {
+    init();
+    IN_GUARD.with(|g| g.set(true));
+    let r = std::panic::catch_unwind(std::panic::AssertUnwindSafe(f));
+    IN_GUARD.with(|g| g.set(false));
+    match r {
+        Ok(x) => Ok(x),
+        Err(_) => {
+            let m = LAST_PANIC.with(|p| p.borrow().clone());
+            if m.contains("memory allocation of") || m.contains("capacity overflow") || m.contains("Failed to allocate") {
+                Err(())
+            } else {
+                eprintln!("thread 'fuzz' panicked at {}", m);
+                std::process::abort();
+            }
+        }
+    }
+}
+
+/// data version of the catalogue's definitions
+pub const CURRENT_VERSION: u32 = 1;
+
 /// What one execution found.
 pub enum Verdict {
     /// load returned Err
@@ -72,12 +143,20 @@ fn ser<T: Serialize + Packed>(v: &T, version: u32) -> Vec<u8> {
 
 /// bare_deserialize `data` as T; on Ok: the value must serialize, and the serialized form must
 /// load to a value with the same serialized form (ordered containers only).
-pub fn load_and_check<T: Serialize + Deserialize + Packed>(data: &[u8], version: u32, ordered: bool) -> Verdict {
+pub fn load_and_check<T: Serialize + Deserialize + Packed>(data: &[u8], version: u32, ordered: bool, valid: fn(&T) -> bool) -> Verdict {
     let mut cur = Cursor::new(data);
-    match Deserializer::bare_deserialize::<T>(&mut cur, version) {
+    let loaded = match guarded(|| Deserializer::bare_deserialize::<T>(&mut cur, version)) {
+        Ok(r) => r,
+        Err(()) => return Verdict::Rejected, // excepted: allocation failure on an absurd declared length
+    };
+    match loaded {
         Err(_) => Verdict::Rejected,
         Ok(v) => {
             assert!(cur.position() as usize <= data.len(), "reader position beyond the input");
+            assert!(valid(&v), "load returned a value that violates its type's invariant (container longer than its storage)");
+            // (saved again at the program's own data version: writing version 0 is refused by
+            // design for types with a Removed field that is live there)
+            let version = CURRENT_VERSION;
             let once = ser(&v, version);
             // a value cannot have been built from fewer bytes than its smallest encoding needs,
             // except through defaults (version-dependent fields), so only a loose bound is asserted
@@ -94,7 +173,7 @@ pub fn load_and_check<T: Serialize + Deserialize + Packed>(data: &[u8], version:
 }
 
 macro_rules! catalogue {
-    ($( $idx:expr => $t:ty, $ordered:expr; )*) => {
+    ($( $idx:expr => $t:ty, $ordered:expr, $valid:expr; )*) => {
         pub const CATALOGUE_LEN: u8 = 0 $( + { let _ = $idx; 1 } )*;
         pub fn type_name(i: u8) -> &'static str {
             match i { $( $idx => stringify!($t), )* _ => "?" }
@@ -102,7 +181,7 @@ macro_rules! catalogue {
         /// dispatch on the first byte of the input
         pub fn run_catalogue(i: u8, version: u32, data: &[u8]) -> Verdict {
             match i {
-                $( $idx => load_and_check::<$t>(data, version, $ordered), )*
+                $( $idx => load_and_check::<$t>(data, version, $ordered, $valid), )*
                 _ => Verdict::Rejected,
             }
         }
@@ -167,47 +246,47 @@ sample!(Nested, Nested { items: vec![Plain { a: 1, b: Some("q".into()), c: [0, 1
 nosample!();
 
 catalogue! {
-    0 => Vec<String>, true;
-    1 => Vec<u8>, true;
-    2 => Vec<bool>, true;
-    3 => Vec<char>, true;
-    4 => Vec<u32>, true;
-    5 => Vec<PackedC>, true;
-    6 => Vec<Unit8>, true;
-    7 => Vec<Option<u16>>, true;
-    8 => BTreeMap<String, Option<u32>>, true;
-    9 => BTreeMap<u32, Vec<String>>, true;
-    10 => BTreeSet<i64>, true;
-    11 => HashMap<u32, String>, false;
-    12 => VecDeque<u16>, true;
-    13 => BinaryHeap<u32>, false;
-    14 => Option<Box<Plain>>, true;
-    15 => Result<String, u32>, true;
-    16 => (u8, String, Option<bool>), true;
-    17 => [String; 2], true;
-    18 => [PackedC; 3], true;
-    19 => String, true;
-    20 => char, true;
-    21 => bit_vec::BitVec, true;
-    22 => bit_set::BitSet, true;
-    23 => arrayvec::ArrayVec<u32, 4>, true;
-    24 => arrayvec::ArrayString<8>, true;
-    25 => smallvec::SmallVec<[u16; 4]>, true;
-    26 => indexmap::IndexMap<String, u8>, true;
-    27 => indexmap::IndexSet<u32>, true;
-    28 => std::time::Duration, true;
-    29 => std::time::SystemTime, true;
-    30 => std::net::IpAddr, true;
-    31 => std::net::SocketAddr, true;
-    32 => std::path::PathBuf, true;
-    33 => std::sync::Arc<str>, true;
-    34 => std::sync::Arc<[u32]>, true;
-    35 => Box<[String]>, true;
-    36 => std::ops::Range<u32>, true;
-    37 => Plain, true;
-    38 => Data, true;
-    39 => Versioned, true;
-    40 => Nested, true;
+    0 => Vec<String>, true, |_| true;
+    1 => Vec<u8>, true, |_| true;
+    2 => Vec<bool>, true, |_| true;
+    3 => Vec<char>, true, |_| true;
+    4 => Vec<u32>, true, |_| true;
+    5 => Vec<PackedC>, true, |_| true;
+    6 => Vec<Unit8>, true, |_| true;
+    7 => Vec<Option<u16>>, true, |_| true;
+    8 => BTreeMap<String, Option<u32>>, true, |_| true;
+    9 => BTreeMap<u32, Vec<String>>, true, |_| true;
+    10 => BTreeSet<i64>, true, |_| true;
+    11 => HashMap<u32, String>, false, |_| true;
+    12 => VecDeque<u16>, true, |_| true;
+    13 => BinaryHeap<u32>, false, |_| true;
+    14 => Option<Box<Plain>>, true, |_| true;
+    15 => Result<String, u32>, true, |_| true;
+    16 => (u8, String, Option<bool>), true, |_| true;
+    17 => [String; 2], true, |_| true;
+    18 => [PackedC; 3], true, |_| true;
+    19 => String, true, |_| true;
+    20 => char, true, |_| true;
+    21 => bit_vec::BitVec, true, |b| b.len() <= b.storage().len() * 32;
+    22 => bit_set::BitSet, true, |b| b.get_ref().len() <= b.get_ref().storage().len() * 32;
+    23 => arrayvec::ArrayVec<u32, 4>, true, |a| a.len() <= a.capacity();
+    24 => arrayvec::ArrayString<8>, true, |_| true;
+    25 => smallvec::SmallVec<[u16; 4]>, true, |_| true;
+    26 => indexmap::IndexMap<String, u8>, true, |_| true;
+    27 => indexmap::IndexSet<u32>, true, |_| true;
+    28 => std::time::Duration, true, |_| true;
+    29 => std::time::SystemTime, true, |_| true;
+    30 => std::net::IpAddr, true, |_| true;
+    31 => std::net::SocketAddr, true, |_| true;
+    32 => std::path::PathBuf, true, |_| true;
+    33 => std::sync::Arc<str>, true, |_| true;
+    34 => std::sync::Arc<[u32]>, true, |_| true;
+    35 => Box<[String]>, true, |_| true;
+    36 => std::ops::Range<u32>, true, |_| true;
+    37 => Plain, true, |_| true;
+    38 => Data, true, |_| true;
+    39 => Versioned, true, |_| true;
+    40 => Nested, true, |_| true;
 }
 
 /// Fixed key of the C14 target.
